@@ -266,6 +266,16 @@ func (fr *frame) havocCall(sig *types.Signature, args []Val, argTypes []types.Ty
 			}
 		}
 	}
+	// an unknown callee that receives a context can reach chain state: the ghost "world" stands for
+	// every effect that has no contract (used by the authority schema, C10)
+	if _, ok := vc.eng.specs.ghostSort["world"]; ok && vc.slice["C10"] {
+		for _, t := range argTypes {
+			if isContextType(t) {
+				vc.ghostHavoc(st, "world")
+				break
+			}
+		}
+	}
 	na := vc.define("alloc", sortInt, "(+ "+st.alloc+" "+vc.fresh("nalloc", sortInt)+")")
 	vc.assume("true", "(>= "+na+" "+st.alloc+")")
 	st.alloc = na
@@ -517,4 +527,13 @@ func (fr *frame) execBuiltin(b *ssa.Builtin, c *ssa.CallCommon, args []Val, st *
 		return Val{}
 	}
 	return vc.havocVal(instr.Type(), b.Name(), st.alloc)
+}
+
+func isContextType(t types.Type) bool {
+	n, ok := types.Unalias(t).(*types.Named)
+	if !ok {
+		return false
+	}
+	q := qualifiedName(n)
+	return q == "context.Context" || q == "github.com/cosmos/cosmos-sdk/types.Context"
 }
